@@ -5,6 +5,8 @@
 package zzvrt
 
 import (
+	"runtime"
+	"time"
 	"encoding/json"
 	"fmt"
 	"math"
@@ -145,6 +147,28 @@ func Chdir(dir string) {
 }
 
 func RemoveAll(dir string) { os.RemoveAll(dir) }
+
+// Settle lets every other goroutine run until it has finished or blocks.
+// Natively: wait until the goroutine count has been stable for a while.
+func Settle() {
+	last, stable := runtime.NumGoroutine(), 0
+	for i := 0; i < 200 && stable < 5; i++ {
+		time.Sleep(2 * time.Millisecond)
+		if n := runtime.NumGoroutine(); n == last {
+			stable++
+		} else {
+			last, stable = n, 0
+		}
+	}
+}
+
+// Resources reports the number of open pipe ends / file descriptors and of
+// live goroutines. The absolute numbers differ between the engine and a native
+// run; harnesses compare two readings.
+func Resources() (fds, goroutines int) {
+	ents, _ := os.ReadDir("/proc/self/fd")
+	return len(ents), runtime.NumGoroutine()
+}
 
 func Choice(name string, n int) int { return int(u(next(name, "int"))) }
 func Concrete(x int) int            { return x }
